@@ -36,6 +36,7 @@ type FuncSel struct {
 	Exclude    string `json:"exclude"`     // regexp of functions to leave out
 	ParamInvs  map[string]string `json:"param_invs"` // sweep: parameter type -> invariant over $p
 	Kinds      string `json:"kinds"`       // regexp on obligation kinds claimed for this selection (default: all)
+	NoFrame    bool   `json:"no_frame"`    // do not check the modifies frame (schematic contracts of generated code)
 	Why        string `json:"why"`
 }
 
@@ -244,7 +245,7 @@ func runCheck(prop, tier, repo, evdir string, verbose bool) int {
 			}(i, f)
 			continue
 		}
-		f := eng.GenVC(j.fn, VerifyOpts{SafetyOnly: j.sel.Mode == "sweep", AllocBound: j.sel.Alloc, NoFrame: j.sel.Mode == "sweep", ParamInvs: j.sel.ParamInvs})
+		f := eng.GenVC(j.fn, VerifyOpts{SafetyOnly: j.sel.Mode == "sweep", AllocBound: j.sel.Alloc, NoFrame: j.sel.Mode == "sweep" || j.sel.NoFrame, ParamInvs: j.sel.ParamInvs})
 		results[i].f = f
 		if f.Unsupported != "" || f.ContractErr != "" {
 			continue
@@ -254,7 +255,11 @@ func runCheck(prop, tier, repo, evdir string, verbose bool) int {
 			defer wg.Done()
 			sem <- struct{}{}
 			defer func() { <-sem }()
+			t1 := time.Now()
 			results[i].vs = Solve(f, SolveOpts{TimeoutMs: timeout, WorkDir: work, Cross: tier == "thorough"})
+			if os.Getenv("GCV_TIMING") != "" {
+				fmt.Printf("timing %6.1fs %s (%d obligations)\n", time.Since(t1).Seconds(), f.Name, len(f.Obligs))
+			}
 		}(i, f)
 	}
 	wg.Wait()
